@@ -8,7 +8,11 @@ Tie: (a) translator/translate_c01.py regenerates the per-type tables from the st
 (b) impl == M for the collector ALGORITHM: hook H2 snapshots the real heap (root counts and what the real
 mark/blacken of every box reach), the real collector runs, Collect.v must retain the same boxes;
 (c) impl == S (S = never-collect run of the same program): role probes, chains of two roles, random
-heap-shaped programs; collect-at-every-allocation under the quarantine (hook H1) vs gc=never."""
+heap-shaped programs; collect-at-every-allocation under the quarantine (hook H1) vs gc=never;
+(d) SCALE (round 7): the collector algorithm itself is read by the translator (collector_shape_gen = collector_shape_ref,
+theories/CollectShape.v; depth-bounded Mechanism variants refuted in CollectShapeProofs.v) and exercised on reference chains of
+1100 .. 70000 links through every traced role and on wide containers / heaps: heap built under gc=never, ONE forced collection
+(hook H2), chain walked; per-collection spec evaluated in the harness on the deep heap (`force=deep`)."""
 import json
 import os
 import re
@@ -27,6 +31,8 @@ TRUSTED = [
     "hooks H1/H2 (memory.rs `verif`: dereference callback, policy, snapshot, force_collect, live_addrs; "
     "object.rs slot_check) and the harness `yv` (Rust; quarantining allocator), tools/*.py (Python)",
     "modelled, not verified: Rust Vec/HashMap/RefCell semantics; a dangling Gc during marking is a no-op in M",
+    "collector_shape_ref (theories/CollectShape.v) mirrors Collect.v's step / mark_roots / trace_loop / sweep by reading; the translator's "
+    "exact-match reading of seven function bodies of memory.rs after dropping instrumentation",
 ]
 ASSUMPTIONS = [
     "rooting discipline of ~60 native/_impl code sites (Gc values held in Rust locals across an allocation) is "
@@ -536,6 +542,324 @@ def random_program(rng):
 
 
 # ------------------------------------------------------------------------------------------
+# SCALE probes (round 7): the collector must not depend on the DEPTH or the SIZE of the object graph.
+# Everything above builds shallow heaps (the deepest tracing recursion of all role probes is < 20): a recursion limit, a
+# worklist capacity, a pass bound or a batch size in the collector is invisible to them.  Here the heap is a reference
+# chain of `depth` links through one traced role (or a random mixture of roles), or a wide object (one container /
+# one heap with tens of thousands of members), that is alive across a collection and is then walked to its end.
+#   configurations: release gc=never (reference) | release gc=never,force=1 (the heap is built without any collection, then
+#   ONE forced collection meets it in one piece: linear cost, so depth 3000 and 70000 are affordable) | release gc=never,
+#   force=deep (the same, plus the per-collection spec evaluated inside the harness: survivors = least fixed point of the
+#   one-box `mark` observations from the rooted boxes) | release gc=always and the debug build (collect at every
+#   allocation: quadratic cost, depth 1100 only).
+
+# link kinds: how one link of the chain is built from (value, rest) and how it is taken apart again.
+#   cons: expression with {v} and {n};  uncons: statements that set vv_ (the value) and move nd_ to the rest
+LINKS = {
+    "vec":      {"cost": 1, "roles": "vec element", "cons": "[{v}, {n}]", "uncons": "vv_ = nd_[0]; nd_ = nd_[1];",
+                 "append": ("[{v}, nil]", "{t}[1] = {x};")},
+    "tuple":    {"cost": 1, "roles": "tuple element", "cons": "({v}, {n})", "uncons": "vv_ = nd_[0]; nd_ = nd_[1];"},
+    "mapval":   {"cost": 1, "roles": "map value", "cons": '{{"v": {v}, "n": {n}}}', "uncons": 'vv_ = nd_.get("v"); nd_ = nd_.get("n");',
+                 "append": ('{{"v": {v}, "n": nil}}', '{t}.insert("n", {x});')},
+    "field":    {"cost": 1, "roles": "instance field", "cons": "mkn_({v}, {n})", "uncons": "vv_ = nd_.v; nd_ = nd_.nx;",
+                 "append": ("mkn_({v}, nil)", "{t}.nx = {x};")},
+    "closure":  {"cost": 3, "roles": "closure -> closed upvalue", "cons": "mkc_({v}, {n})", "uncons": "vv_ = nd_(0); nd_ = nd_(1);"},
+    "bound":    {"cost": 2, "roles": "bound method -> receiver -> field -> tuple", "cons": "mkb_({v}, {n})", "uncons": "var p_ = nd_(); vv_ = p_[0]; nd_ = p_[1];"},
+    "veciter":  {"cost": 2, "roles": "vec iterator -> iterable -> element", "cons": "[{v}, {n}].iter()", "uncons": "vv_ = nd_.next(); nd_ = nd_.next();"},
+    "tupiter":  {"cost": 2, "roles": "tuple iterator -> iterable -> element", "cons": "({v}, {n}).iter()", "uncons": "vv_ = nd_.next(); nd_ = nd_.next();"},
+    "shared":   {"cost": 3, "roles": "two closures sharing one closed upvalue", "cons": "mks_({v}, {n})", "uncons": "vv_ = nd_[0](); nd_ = nd_[1]();"},
+    "fiber":    {"cost": 3, "roles": "suspended fiber's stack", "cons": "mkf_({v}, {n})", "uncons": "var p_ = nd_.call(0); vv_ = p_[0]; nd_ = p_[1];"},
+}
+SCALE_DEFS = ["fn mkn_(v, n) { var o = P.new(v); o.nx = n; return o; }",
+              "fn mkc_(v, n) { fn g(k) { if k == 0 { return v; } return n; } return g; }",
+              "fn mkb_(v, n) { return P.new((v, n)).get; }",
+              "fn mks_(v, n) { var pair = (v, n); fn a() { return pair[0]; } fn b() { return pair[1]; } return (a, b); }",
+              "fn mkf_(v, n) { var f = Fiber.new(|a| { Fiber.yield(0); return a; }); f.call((v, n)); return f; }"]
+# where the head of the chain hangs: {build} is the expression building it, {use} the variable holding it
+ANCHORS = {
+    "local": ("var h_ = {build};", "h_"),
+    "module attribute": ("G_ = {build};", "G_"),
+    "closed upvalue": ("var hc_ = (|| {{ var x = {build}; return || x; }})();", "hc_()"),
+    "map key (a tuple chain is hashable)": ("var hm_ = {{}}; hm_.insert({build}, 1);", "hm_.keys()[0]"),
+}
+
+
+def scale_probe(role, shape, src, scale):
+    return {"tag": "scale", "role": role, "shape": shape, "src": src, "mods": {}, "known": None, "regrey": False, "holders": None,
+            "why_no_premise": "scale probe: the probed thing is the depth / size of the graph, not a single owner", "scale": scale}
+
+
+def scale_window():
+    return 'print("@@C"); print("@@GC"); %s print("@@C");' % garb(4)
+
+
+def chain_program(kinds, depth, order="prepend", anchor="local"):
+    """a chain of `depth` links, link i of kind kinds[i % len(kinds)]; values 1..depth; walked after the collection point"""
+    k = len(kinds)
+    depth -= depth % k
+    if order == "append":
+        assert k == 1 and "append" in LINKS[kinds[0]]
+        mk, setnext = LINKS[kinds[0]]["append"]
+        build = ("fn build_(n) { var head = %s; var t = head; var i = 2; while i <= n { var x = %s; %s t = x; i += 1; } return head; } " % (
+            mk.format(v="1"), mk.format(v="i"), setnext.format(t="t", x="x")))
+    else:
+        steps = " ".join("h = %s; i += 1;" % LINKS[x]["cons"].format(v="i", n="h") for x in reversed(kinds))
+        build = "fn build_(n) { var h = nil; var i = 1; while i <= n { %s } return h; } " % steps
+    # (each step in its own block: `var p_` of two links of the same kind must not collide)
+    unc = " ".join("{ %s } s += vv_; c += 1;" % LINKS[x]["uncons"] for x in kinds)
+    walk = "fn walk_(nd_) { var s = 0; var c = 0; var vv_ = 0; while nd_ != nil && c < %d { %s } return (c, s); } " % (depth + 10, unc)
+    decl, use = ANCHORS[anchor]
+    defs = " ".join(d for d in SCALE_DEFS if any(d.startswith("fn mk%s_" % LINKS[x]["cons"][2]) for x in kinds if LINKS[x]["cons"].startswith("mk")))
+    body = "%s %s %s %s %s print(walk_(%s));" % (defs, build, walk, decl.format(build="build_(%d)" % depth), scale_window(), use)
+    pre = "var G_ = nil;\n" if anchor == "module attribute" else ""
+    return PRELUDE + pre + "fn body_() { %s } body_();" % body, depth
+
+
+def scale_probes(rng, quick):
+    """list of probe dicts (tag 'scale') with a `scale` entry {"depth": n, "cost": c}: cost 1 = one small box per link,
+    2 = two or three, 3 = expensive under collect-at-every-allocation (see scale_configs)"""
+    out = []
+
+    def add(role, shape, src, n, cost, quick_extra=(), gen=None):
+        out.append(scale_probe(role, shape, src, {"depth": n, "cost": cost, "quick_extra": list(quick_extra), "gen": gen}))
+
+    D_ALL, D_BIG, D_HUGE = 1100, 3000, 70000
+    singles = [k for k in LINKS]
+    for kind in singles:
+        cost = LINKS[kind]["cost"]
+        # (a suspended fiber owns a 256 KB value stack: the fiber chain stays at 1100 links = 290 MB)
+        for depth in ((D_ALL,) if kind == "fiber" else (D_ALL, D_BIG, D_HUGE)):
+            anchor = "local" if depth != D_BIG else rng.choice(["local", "module attribute", "closed upvalue"])
+            src, d = chain_program([kind], depth, "prepend", anchor)
+            add("chain through: %s (%s, newest link is the head)" % (LINKS[kind]["roles"], anchor), "depth %d" % d, src, d, cost,
+                (["debug"] if (kind, depth) == ("vec", D_ALL) else []) + (["deep"] if (kind, depth) == ("field", D_BIG) else []), gen=[[kind], "prepend", anchor])
+        if "append" in LINKS[kind]:
+            for depth in (D_ALL, D_BIG):
+                src, d = chain_program([kind], depth, "append")
+                add("chain through: %s (built by appending: oldest link is the head)" % LINKS[kind]["roles"], "depth %d" % d, src, d, cost,
+                    (["debug"] if (kind, depth) == ("field", D_ALL) else []) + (["deep"] if (kind, depth) == ("vec", D_BIG) else []), gen=[[kind], "append", "local"])
+    # the deep tuple chain as the KEY of a map (RKey at depth)
+    for depth in (D_ALL, D_BIG):
+        src, d = chain_program(["tuple"], depth, "prepend", "map key (a tuple chain is hashable)")
+        add("chain through: tuple element, the head held only as a map key", "depth %d" % d, src, d, 1)
+    # random mixtures of link kinds (period 2..5), one of them from the cheap kinds only (it also runs in the debug build)
+    light = [k for k in LINKS if k != "fiber"]
+    cheap = [k for k in LINKS if LINKS[k]["cost"] == 1]
+    for j in range(5 if quick else 24):
+        pool = cheap if j == 0 else light
+        kinds = [rng.choice(pool) for _ in range(rng.randint(2, 5))]
+        depth = D_ALL if j < 2 else rng.choice([D_ALL, D_BIG, D_BIG, 12000])
+        anchor = rng.choice(["local", "module attribute", "closed upvalue"])
+        src, d = chain_program(kinds, depth, "prepend", anchor)
+        add("chain through a repeating mixture: %s" % " / ".join(kinds), "depth %d" % d, src, d, max(LINKS[k]["cost"] for k in kinds),
+            ["debug"] if j == 0 else (["always"] if j == 1 else []), gen=[kinds, "prepend", anchor])
+    return out
+
+
+def special_scale_probes(rng, quick):
+    out = []
+
+    def add(role, shape, body, n, cost, what="depth", quick_extra=()):
+        out.append(scale_probe(role, shape, PRELUDE + "fn body_() { %s } body_();" % body, {what: n, "cost": cost, "quick_extra": list(quick_extra)}))
+
+    W = scale_window()
+    for n in (1100, 3000):
+        # superclass chain: `derives` walks it from the newest class down to the oldest
+        add("chain through: class -> superclass", "depth %d" % n,
+            "class A_ {} fn sub_(c) { #[derive(c), constructor(new)] class D_ {} return D_; } var h = A_; var i = 0; while i < %d { h = sub_(h); i += 1; } %s "
+            "var o = h.new(); print(o.derives(A_)); print(o.derives(P)); print(h.new().derives(h));" % (n, W), n, 2, quick_extra=["always"] if n == 1100 else [])
+        # open-upvalue list of one fiber (ObjUpvalue.next): `frames` active frames with `per` captured locals each, the capturing
+        # closures dropped: the upvalue boxes are held by the fiber's open list only; re-capturing the lowest slot walks the whole list
+        per = 100
+        frames = n // per
+        locs = " ".join("var a%d = [d, %d]; { fn c%d() { return a%d; } }" % (j, j, j, j) for j in range(per))
+        again = " + ".join("(|| a%d[1])()" % j for j in (0, per // 2, per - 1))
+        add("chain through: fiber -> open upvalue list (ObjUpvalue.next), capturing closures dropped", "depth %d" % (frames * per),
+            "fn rec_(d) { %s var r = 0; if d > 1 { r = rec_(d - 1); } else { %s } return r + a0[0] + %s; } print(rec_(%d));" % (locs, W, again, frames),
+            frames * per, 2, quick_extra=["always"] if n == 1100 else [])
+    for n in ((300, 1100) if quick else (300, 1100, 2000)):
+        # caller chain: fiber i calls fiber i+1; every fiber of the chain is reachable only through `caller` of the next one
+        # (each fiber owns a 256 KB value stack: depth 1100 = 290 MB, run one at a time)
+        add("chain through: fiber -> caller (every fiber is running a call of the next one)", "depth %d" % n,
+            "fn level_(d) { var x = [d]; if d == 0 { %s return 0; } var r = Fiber.new(|| level_(d - 1)).call(); return r + x[0]; } print(level_(%d));" % (W, n), n, 3)
+    # WIDTH / SIZE: one container with many members, a heap with more than 2^16 boxes, more than 2^16 roots (every distinct
+    # string is interned and rooted), a value stack near its capacity
+    # (the collection point of the wide probes lies inside a fiber created AFTER the many boxes: the running fiber is then a
+    #  rooted box far down the allocation order, and its fresh locals are reachable through that late root only)
+    W0 = W
+    W = "print(Fiber.new(|| { var fresh = [[1], (2, [3])]; %s return fresh; }).call());" % W0
+    for n in (5000, 70000):
+        wc = 3 if n == 5000 else 4
+        add("wide: one vec with %d fresh members (each a tuple holding a vec)" % n, "width %d" % n,
+            "var v = []; var i = 0; while i < %d { v.push((i, [i])); i += 1; } %s var s = 0; i = 0; while i < v.len() { s += v[i][1][0]; i += 1; } print((v.len(), s));" % (n, W),
+            n, wc, "width")
+        add("wide: one map with %d entries, tuple keys and vec values" % n, "width %d" % n,
+            "var m = {}; var i = 0; while i < %d { m.insert((i, \"k\"), [i]); i += 1; } %s var s = 0; i = 0; while i < %d { s += m.get((i, \"k\"))[0]; i += 1; } print((m.len(), s)); "
+            "var ks = 0; for k in m.keys() { ks += k[0]; } print(ks);" % (n, W, n), n, wc, "width")
+        add("wide: %d distinct interned strings (each one a rooted box) next to %d live vecs" % (n, n), "width %d" % n,
+            'var v = []; var i = 0; while i < %d { v.push(["s${i}"]); i += 1; } %s var s = 0; i = 0; while i < v.len() { s += v[i][0].len(); i += 1; } print((v.len(), s));' % (n, W),
+            n, wc, "width")
+        if n == 5000:
+            nf = 400
+            add("wide: one instance with %d fields" % nf, "width %d" % nf,
+                "var o = P.new(0); %s %s print(%s);" % (" ".join("o.f%d = [%d];" % (j, j) for j in range(nf)), W, " + ".join("o.f%d[0]" % j for j in range(0, nf, 7))),
+                nf, 1, "width", quick_extra=["debug", "always"])
+    W = W0
+    # value stack near capacity: 60 frames with 250 live locals each (Stack::mark walks [0, len))
+    per = 240
+    locs = " ".join("var a%d = [d];" % j for j in range(per))
+    tot = " + ".join("a%d[0]" % j for j in (0, 1, per // 2, per - 2, per - 1))
+    add("wide: value stack of one fiber with %d live slots (58 frames x %d locals)" % (58 * per, per), "width %d" % (58 * per),
+        "fn deep_(d) { %s var r = 0; if d > 1 { r = deep_(d - 1); } else { %s } return r + %s; } print(deep_(58));" % (locs, W, tot), 58 * per, 4, "width")
+    return [p for p in out if p]
+
+
+def scale_configs(p, quick):
+    """which configurations a scale probe runs in.  The forced-once configurations are linear in the size of the heap (every probe
+    runs in `forced`), `deep` is quadratic in the harness (one-box observations), `always` and `debug` collect at every allocation.
+    cost class: 1 = one small box per link, 2 = two or three, 3 = expensive under collect-at-every-allocation, 4 = linear only.
+    quick tier: deep for depth <= 1100 and cost <= 2, gc=always for depth <= 1100 and cost 1, plus the configurations a probe
+    names itself (`quick_extra`: e.g. the debug build for three chains); thorough tier: by cost class"""
+    s = p["scale"]
+    n = s.get("depth", s.get("width"))
+    c = s["cost"]
+    wide = "width" in s
+    small = n <= 1100
+    cfgs = ["forced"]
+    if quick:
+        if small and c <= 2 and not wide:
+            cfgs.append("deep")
+        if small and c == 1 and not wide:
+            cfgs.append("always")
+    else:
+        if (c <= 3 and n <= 3000) or (wide and n <= 5000):
+            cfgs.append("deep")
+        if small and c <= 3 and not wide:
+            cfgs.append("always")
+        if small and c <= 2 and not wide:
+            cfgs.append("debug")
+    for x in s.get("quick_extra", []):
+        if x not in cfgs:
+            cfgs.append(x)
+    return cfgs
+
+
+SCALE_TIMEOUT_MS = 90000
+SCALE_CONFIGS = {
+    "forced": ("release", "gc=never,force=1,stats=1", "release build, heap built without any collection, then ONE forced collection"),
+    "deep": ("release", "gc=never,force=deep,stats=1", "release build, ONE forced collection checked against the fixed point of the one-box mark observations"),
+    "always": ("release", "gc=always,stats=1", "release build gc=always"),
+    "debug": ("debug", "stats=1,inv=1", "debug build (collects at every allocation)"),
+}
+
+
+def run_scale(ctx, plist, label):
+    """scale probes: reference = release gc=never; each probe in the configurations scale_configs() gives it"""
+    quick = ctx.quick()
+    bins = {"release": ctx.harness("release"), "debug": ctx.harness("debug")}
+    t0 = time.time()
+    # the fiber-heavy cases (256 KB value stack per fiber) first and spread out, so that two of them rarely share a shard
+    jobs = [(i, None) for i in range(len(plist))]
+    for i, p in enumerate(plist):
+        for c in (p.get("only_configs") or scale_configs(p, quick)):
+            jobs.append((i, c))
+    recs = {}
+    for prof in ("release", "debug"):
+        mine = [(i, c) for i, c in jobs if (SCALE_CONFIGS[c][0] if c else "release") == prof]
+        lines = [line_of(plist[i], SCALE_CONFIGS[c][1] if c else "gc=never,stats=1") for i, c in mine]
+        rs = yvlib.run_harness(bins[prof], lines, quarantine=True, case_timeout_ms=SCALE_TIMEOUT_MS, recycle=6)
+        # a case that hit the watchdog is re-run alone before it is believed
+        for k, r in enumerate(rs):
+            if r.crashed == "timeout":
+                rs[k] = yvlib.run_harness(bins[prof], [lines[k]], quarantine=True, case_timeout_ms=3 * SCALE_TIMEOUT_MS, shards=1)[0]
+        for (i, c), r in zip(mine, rs):
+            recs[(i, c)] = r
+    log("[C01] %s: %d scale programs, %d runs in %.1fs" % (label, len(plist), len(jobs), time.time() - t0))
+    cov = ctx.cov.setdefault("scale", {"programs": 0, "runs": 0, "by_configuration": {}, "max_depth": 0, "max_width": 0, "deep_spec_checked": 0,
+                                        "deepest_single_mark_recursion_observed": 0, "largest_heap_collected": 0, "roles": []})
+    nontriv = set()
+    failed = 0
+    for i, p in enumerate(plist):
+        r0 = recs[(i, None)]
+        ref = outcome(r0)
+        cov["programs"] += 1
+        cov["max_depth"] = max(cov["max_depth"], p["scale"].get("depth", 0))
+        cov["max_width"] = max(cov["max_width"], p["scale"].get("width", 0))
+        if p["role"] not in cov["roles"]:
+            cov["roles"].append(p["role"])
+        if r0.crashed or ref["res"] in ("panic", "err") or ref["uaf"]:
+            ctx.corr_broken.append("scale probe [%s/%s]: the never-collect run is not clean (%s %s %s)" % (p["role"], p["shape"], ref["res"], ref["detail"][:120], ref["msgs"][:1]))
+            continue
+        runs = []
+        for c in (p.get("only_configs") or scale_configs(p, quick)):
+            r = recs[(i, c)]
+            runs.append((SCALE_CONFIGS[c][2], r))
+            cov["runs"] += 1
+            cov["by_configuration"][c] = cov["by_configuration"].get(c, 0) + 1
+            for g in r.tagged("G"):
+                cov["largest_heap_collected"] = max(cov["largest_heap_collected"], int(g[1]))
+            for d in r.tagged("D"):
+                # D <boxes> <rooted> <|R|> <survivors> <lost> <extra> <largest one-box mark set> <type of the first lost box>
+                nb, nroot, nr, nlive, lost, extra, widest = [int(x) for x in d[:7]]
+                cov["deep_spec_checked"] += 1
+                cov["deepest_single_mark_recursion_observed"] = max(cov["deepest_single_mark_recursion_observed"], widest)
+                if lost > 0:
+                    ctx.violation("scale [%s / %s]: ONE forced collection of a heap of %d boxes reclaimed %d boxes that the real `mark` reaches from a rooted box "
+                                  "(first: %s); %d of %d reachable boxes survived" % (p["role"], p["shape"], nb, lost, type_short(d[7]) if d[7] != "-" else "?", nlive, nr),
+                                  input=p["src"], modules=p["mods"], config=SCALE_CONFIGS[c][2], expected="all %d reachable boxes survive" % nr,
+                                  actual="%d lost" % lost, role=p["role"], probe_tag="scale", scale=p["scale"], only_configs=[c])
+                    failed += 1
+                elif extra > 0:
+                    ctx.corr_broken.append("scale [%s / %s]: the forced collection kept %d boxes outside the mark-reachable set (Collect.v: collect_exact keeps exactly the reachable ones)" % (
+                        p["role"], p["shape"], extra))
+        f, nt = judge(ctx, p, ref, runs, None)
+        failed += f
+        if nt and not f:
+            nontriv.add((p["tag"], p["role"], p["shape"]))
+    if failed and label != "replay":
+        shrink_scale(ctx, plist, bins["release"])
+    return nontriv, failed
+
+
+def shrink_scale(ctx, plist, rel):
+    """the first failing chain probe is re-run with the depth bisected (one forced collection, release build: linear cost,
+    at most 14 re-runs): the smallest failing depth names the limit the collector has acquired"""
+    bad = {(v.get("role"), v.get("input")) for v in ctx.violations if v.get("probe_tag") == "scale"}
+    cand = [p for p in plist if (p["role"], p["src"]) in bad and p["scale"].get("gen") and p["scale"].get("depth")]
+    if not cand:
+        return
+    p = min(cand, key=lambda q: (len(q["scale"]["gen"][0]), q["scale"]["depth"]))
+    kinds, order, anchor = p["scale"]["gen"]
+
+    def fails(d):
+        src, d2 = chain_program(kinds, d, order, anchor)
+        q = scale_probe(p["role"], "depth %d" % d2, src, {"depth": d2, "cost": p["scale"]["cost"]})
+        rs = yvlib.run_harness(rel, [line_of(q, "gc=never,stats=1"), line_of(q, "gc=never,force=1,stats=1")], quarantine=True,
+                               case_timeout_ms=SCALE_TIMEOUT_MS, shards=1)
+        a, b = outcome(rs[0]), outcome(rs[1])
+        ok = not rs[1].crashed and b["uaf"] == 0 and (b["res"], b["out"], b["msgs"]) == (a["res"], a["out"], a["msgs"])
+        return (not ok), q, a, b
+    lo, hi = len(kinds), p["scale"]["depth"]       # lo passes (assumed), hi fails
+    best = None
+    for _ in range(14):
+        if hi - lo <= max(1, len(kinds)):
+            break
+        mid = (lo + hi) // 2
+        f, q, a, b = fails(mid)
+        if f:
+            hi, best = mid, (q, a, b)
+        else:
+            lo = mid
+    if best:
+        q, a, b = best
+        ctx.violations.insert(0, {"what": "scale [%s]: smallest failing depth found by bisection is %d links (depth %d passes): ONE forced collection of a heap built "
+                                          "without collections, then the chain is walked" % (q["role"], q["scale"]["depth"], lo),
+                                  "input": q["src"], "modules": {}, "config": SCALE_CONFIGS["forced"][2], "expected": {"out": a["out"], "res": a["res"]},
+                                  "actual": {"out": b["out"], "res": b["res"], "detail": b["detail"][:300], "uaf": b["uaf"]}, "known_class": None,
+                                  "role": q["role"], "probe_tag": "scale", "scale": q["scale"], "only_configs": ["forced"]})
+
+
+# ------------------------------------------------------------------------------------------
 # running
 
 def line_of(p, opts):
@@ -661,7 +985,7 @@ def judge(ctx, p, ref, runs, fixed_state):
                   input=p["src"], modules=p["mods"], config=cfg,
                   expected={"out": ref["out"], "res": ref["res"]},
                   actual={"out": o["out"], "res": o["res"], "detail": o["detail"][:300], "uaf": o["uaf"]},
-                  known_class=known, role=p["role"], probe_tag=p["tag"], seq=p.get("seq"))
+                  known_class=known, role=p["role"], probe_tag=p["tag"], seq=p.get("seq"), scale=p.get("scale"))
     return True, nontriv
 
 
@@ -986,6 +1310,13 @@ def table_facts():
             "exempt_untraced_pinned": dec(vals[4])}
 
 
+# theories/CollectShape.v collector_shape_ref, in the translator's manifest form (mark/blacken: skip, set, forward, guarded)
+COLLECTOR_SHAPE_REF = {"unmark": "White", "mark": ["Grey", "Grey", True, False], "blacken": ["Black", "Black", True, False],
+                       "roots_unmark_all": True, "root_test_positive": True, "roots_call_mark": True,
+                       "trace_filter": "Grey", "trace_calls_blacken": True, "trace_until_no_grey": True,
+                       "sweep_retain": "Black", "sweep_counts": "White", "phases": ["mark_roots", "trace_references", "sweep"]}
+
+
 def tree_state(man):
     """which of the pending repairs the translator sees in the CURRENT sources"""
     marks = man.get("marks", {})
@@ -1033,6 +1364,9 @@ def replay(ctx):
          "seq": tuple(r["seq"]) if r.get("seq") else None}
     if r.get("probe_tag") == "snapshot":
         check_snapshots(ctx, [r["input"]], "replay")
+    elif r.get("scale"):
+        p.update({"tag": "scale", "scale": r["scale"], "only_configs": r.get("only_configs")})
+        run_scale(ctx, [p], "replay")
     else:
         run_probes(ctx, [p], "replay")
     ctx.cov.update({"evaluations": 3, "distinct_nontrivial": 0, "rule": "replay of one recorded failing program", "samples": [r["input"][-400:]]})
@@ -1056,6 +1390,14 @@ def run(ctx):
         ctx.notes.append("a repair has landed (or was reverted): edit the SWITCH BLOCK of coq/props/C01.v as described in notes/C01.md "
                          "(expected open pairs %s, regrey variant %s)" % (want_pairs, "REPAIRED" if st["receiver_blacken"] else "UNREPAIRED"))
 
+    cs = man.get("collector_shape")
+    if cs is not None:
+        diff = {k: v for k, v in cs.items() if COLLECTOR_SHAPE_REF.get(k) != v}
+        ctx.cov["collector_shape"] = {"as_read_from_memory_rs": cs, "differs_from_model": diff}
+        if diff:
+            ctx.broken.append("collector algorithm as read from memory.rs (GcBox::unmark/mark/blacken, Heap::collect/mark_roots/trace_references/sweep) is not the one "
+                              "Collect.v models (C01_collector_shape): %s" % diff)
+
     facts = table_facts()
     ctx.cov["table_facts"] = facts
     if facts["uncovered"] is not None:
@@ -1075,7 +1417,10 @@ def run(ctx):
     plist += probe_pairs(rng, 16 if quick else 64)
     plist += [random_program(rng) for _ in range(200 if quick else 3000)]
     nontriv, failed, bad_ref = run_probes(ctx, plist, "probes")
-    finish(ctx, plist, nontriv, failed, nsnap, nsnap_nontriv)
+    # (d) scale: depth / size of the object graph (round 7)
+    slist = scale_probes(rng, quick) + special_scale_probes(rng, quick)
+    nt2, f2 = run_scale(ctx, slist, "scale")
+    finish(ctx, plist + slist, nontriv | nt2, failed + f2, nsnap, nsnap_nontriv)
 
 
 def finish(ctx, plist, nontriv, failed, nsnap, nsnap_nontriv):
@@ -1106,17 +1451,23 @@ def finish(ctx, plist, nontriv, failed, nsnap, nsnap_nontriv):
         ctx.notes.append("%d probes could not verify their premise (object reachable ONLY through the probed role) and are not counted as "
                          "non-trivial: %s" % (len(prem["unverified"]), "; ".join(prem["unverified"][:6])))
     ctx.cov.update({
-        "evaluations": 3 * len(plist) + nsnap,
+        "evaluations": 3 * len([p for p in plist if p["tag"] != "scale"]) + ctx.cov.get("scale", {}).get("runs", 0) + nsnap,
         "distinct_nontrivial": len(nontriv) + nsnap_nontriv,
         "rule": "a (role, shape) probe counts when, in a stress configuration, at least one collection ran between the two marks "
                 "that delimit the stretch in which the probed object is reachable only through the probed role (collections counter of hook H2), "
                 "no use-after-reclaim event fired, the output (which prints the object afterwards) equals the never-collect run, and - for probes that tag their "
                 "probed object (premise_claimed) - the harness verified on a heap snapshot at the collection point that the object has num_roots = 0 and no reachable "
                 "direct holder other than the probed one (premise_verified); "
-                "a heap snapshot counts when the forced collection freed something and retained at least one non-root box",
-        "samples": [plist[0]["src"][-300:], plist[-1]["src"][-400:]],
-        "probes": len([p for p in plist if p["tag"] not in ("pair", "random")]),
-        "probe_roles": ["%s: %s" % r for r in roles if r[0] not in ("pair", "random")][:80],
+                "a heap snapshot counts when the forced collection freed something and retained at least one non-root box; "
+                "a scale probe (chain of 300 .. 70000 links through one traced role or a mixture, or a wide container / heap) counts when in every one of its "
+                "stress configurations a collection ran while the whole chain was alive, no use-after-reclaim event fired, the walk of the chain afterwards printed the "
+                "same (count, sum) as the never-collect run and, in the `deep` configuration, the forced collection lost none of the boxes in the fixed point of the "
+                "one-box mark observations",
+        "samples": [plist[0]["src"][-300:], [p for p in plist if p["tag"] == "random"][-1]["src"][-400:] if [p for p in plist if p["tag"] == "random"] else "",
+                    ([p for p in plist if p["tag"] == "scale"] or [{"src": ""}])[0]["src"][-500:]],
+        "probes": len([p for p in plist if p["tag"] not in ("pair", "random", "scale")]),
+        "scale_probes": len([p for p in plist if p["tag"] == "scale"]),
+        "probe_roles": ["%s: %s" % r for r in roles if r[0] not in ("pair", "random", "scale")][:80],
         "pair_probes": len([p for p in plist if p["tag"] == "pair"]),
         "random_programs": len([p for p in plist if p["tag"] == "random"]),
         "random_shape_distribution": dist([p["shape"] for p in plist if p["tag"] == "random"]),
@@ -1158,6 +1509,20 @@ def search(ctx):
         if (k, r) not in open_pairs:
             tags.add(ROLE_TAGS.get(r, "elem"))
             ctx.notes.append("search: table entry (%s, %s) -> probes tagged '%s' first" % (k, r, ROLE_TAGS.get(r, "elem")))
+    if any("collector" in t for t in texts):
+        # the collector's own code changed shape (a guard, a bound, another colour): the scale family in its thorough form first
+        # (every chain also under collect-at-every-allocation), then the snapshot correspondence
+        ctx.notes.append("search: the collector algorithm changed shape -> scale probes (thorough form) and snapshots first")
+        old = ctx.tier
+        ctx.tier = "thorough"
+        try:
+            run_scale(ctx, scale_probes(ctx.rng, False) + special_scale_probes(ctx.rng, False), "search-scale")
+            if not [v for v in ctx.violations if not v.get("known_class")]:
+                check_snapshots(ctx, list(SNAP_PROGRAMS) + [x for x, _ in random_snapshot_programs(ctx.rng, 40)], "search")
+        finally:
+            ctx.tier = old
+        if [v for v in ctx.violations if not v.get("known_class")]:
+            return
     allp = probes()
     first = [p for p in allp if p["tag"] in tags]
     if first:
